@@ -22,6 +22,7 @@ TRANSFORMS = [
     "only with option `destruct` (this Verus does not support destructuring assignment): a statement `(p0, p1, ..) = e;` -> `let (vdaK_0, vdaK_1, ..) = e; p0 = vdaK_0; p1 = vdaK_1; ..` (K = ordinal of the statement; a `_` place stays `_` in the pattern and gets no assignment). This is the desugaring the Rust reference gives for destructuring assignment: the right-hand side is evaluated first, then the places are assigned left to right",
     "only with option `localconst` (a const item inside a function body whose initialiser calls a const fn cannot be evaluated in specifications by this Verus): `const NAME: T = e;` at statement position inside the body -> `let NAME: T = e;` (same value, computed when the statement is reached instead of at compile time)",
     "only with option `nestedret=<r>`: for every fn item nested inside the extracted function body, `-> T` -> `-> (<r>: T)` so that the contract woven at anchor `nested <fn>` can name its result (nested fn items are otherwise kept in place, verbatim)",
+    "only with option `nodecreases`: the marked attribute line `#[verifier::exec_allows_no_decreases_clause]` is put before the function: Verus then does not ask for a termination measure on its loops, i.e. termination is NOT proved for that function (used for retry loops that end with probability 1 only); nothing in the body changes",
     "only with option `lebytes` (this Verus cannot attach a specification to the std byte-order conversions, whose signatures use the const expression `[u8; size_of::<T>()]`): `<int>::from_le_bytes(` -> `<int>_from_le_bytes(`, `<int>::from_be_bytes(` -> `<int>_from_be_bytes(` (int in u16/u32/u64/u128), and the method calls `.to_le_bytes()` / `.to_be_bytes()` -> `.vto_le_bytes()` / `.vto_be_bytes()`; the twins are declared in contracts/spec/lebytes_decl.vrs with the std semantics as ASSUMED contracts (trusted: std)",
     "only with option `revloops=<T>` (this Verus has no specification for Rev<Range>): `for v in (a..b).rev() {` -> `let mut vrev<k>: T = b; while vrev<k> > a { vrev<k> = vrev<k> - 1; let v = vrev<k>;` (k-th such loop; a, b are the literal or identifier bounds as written; the loop body is unchanged; same iteration sequence b-1, b-2, .., a)",
 ]
@@ -381,14 +382,18 @@ def find_fn(src, name, nth=0, within=None):
     return toks[s].start, toks[e].end
 
 
-def find_item(src, kind, name, within=None):
-    """Locate `struct|enum|const|static|type name` item; returns (start,end)."""
+def find_item(src, kind, name, within=None, nth=0):
+    """Locate the nth `struct|enum|const|static|type name` item (source order); returns (start,end)."""
     toks = tokenize(src)
     lo, hi = within if within else (0, len(src))
+    seen = 0
     for i, t in enumerate(toks):
         if t.start < lo or t.end > hi:
             continue
         if t.kind == 'id' and t.text == kind and toks[i + 1].text == name:
+            seen += 1
+            if seen <= nth:
+                continue
             s = i
             while s > 0 and (toks[s - 1].text in ('pub', 'crate') or toks[s-1].text in ('(', ')')):
                 s -= 1
@@ -503,7 +508,7 @@ def normalise_fn(fn_src, cfg, rename=None, ret_name=None, debug_assert_verus=Tru
             rc[0] += 1
             return "let mut vrev%d: %s = %s; while vrev%d > %s { vrev%d = vrev%d - 1; let %s = vrev%d;" % (
                 k, revloops, m.group(3), k, m.group(2), k, k, m.group(1), k)
-        s = re.sub(r'\bfor\s+(\w+)\s+in\s+\(\s*(\w+)\s*\.\.\s*(\w+)\s*\)\s*\.\s*rev\s*\(\s*\)\s*\{', _rv, s)
+        s = re.sub(r'\bfor\s+(\w+)\s+in\s+\(\s*(\w+|\([^()]*\))\s*\.\.\s*(\w+|\([^()]*\))\s*\)\s*\.\s*rev\s*\(\s*\)\s*\{', _rv, s)
     if destruct:
         s = _destruct_text(s)
     if localconst:
@@ -656,20 +661,34 @@ def source_tokens(fn_src, cfg, rename=None, ret_name=None, debug_assert_verus=Tr
                 i += 1
         toks = out
     if revloops:
+        def _bound(j):
+            # a bound is one token, or a parenthesised group without nested parentheses
+            if toks[j] == '(':
+                e = j + 1
+                while toks[e] != ')':
+                    if toks[e] == '(':
+                        return None, None
+                    e += 1
+                return toks[j:e + 1], e + 1
+            return [toks[j]], j + 1
         out = []
         i = 0
         k = 0
         while i < len(toks):
-            if (toks[i] == 'for' and i + 12 < len(toks) and toks[i + 2] == 'in' and toks[i + 3] == '(' and toks[i + 5] == '..'
-                    and toks[i + 7] == ')' and toks[i + 8] == '.' and toks[i + 9] == 'rev' and toks[i + 10] == '('
-                    and toks[i + 11] == ')' and toks[i + 12] == '{'):
-                v, a, b = toks[i + 1], toks[i + 4], toks[i + 6]
-                n = 'vrev%d' % k
-                k += 1
-                out += ['let', 'mut', n, ':', revloops, '=', b, ';', 'while', n, '>', a, '{', n, '=', n, '-', '1', ';',
-                        'let', v, '=', n, ';']
-                i += 13
-            else:
+            done = False
+            if toks[i] == 'for' and i + 4 < len(toks) and toks[i + 2] == 'in' and toks[i + 3] == '(':
+                a, j = _bound(i + 4)
+                if a is not None and toks[j] == '..':
+                    b, j2 = _bound(j + 1)
+                    if b is not None and toks[j2:j2 + 6] == [')', '.', 'rev', '(', ')', '{']:
+                        v = toks[i + 1]
+                        n = 'vrev%d' % k
+                        k += 1
+                        out += ['let', 'mut', n, ':', revloops, '='] + b + [';', 'while', n, '>'] + a + ['{', n, '=', n, '-', '1', ';',
+                                'let', v, '=', n, ';']
+                        i = j2 + 6
+                        done = True
+            if not done:
                 out.append(toks[i])
                 i += 1
         toks = out
